@@ -364,7 +364,7 @@ def fails_of(c):
 
 def gen_seqs(chk, tier):
     rng = np.random.default_rng(chk.seed + 2)
-    n = 21 if tier == "quick" else 700
+    n = 21 if tier == "quick" else 150
     return [gen_seq(rng, SEQ_VARIANTS[k % len(SEQ_VARIANTS)]) for k in range(n)]
 
 
@@ -406,9 +406,9 @@ KINDS = ["valid"] * 8 + ["bad_ngrains", "bad_osteps", "bad_fsteps", "phase_missi
 
 def gen_cases(chk, tier):
     rng = np.random.default_rng(chk.seed)
-    n = 260 if tier == "quick" else 20000
+    n = 260 if tier == "quick" else 3000      # ~0.2 s per case in the extracted model (rotate4 over lists)
     cases = [gen_case(rng, KINDS[k % len(KINDS)]) for k in range(n)]
-    for _ in range(1 if tier == "quick" else 20):
+    for _ in range(1 if tier == "quick" else 5):
         cases.append(gen_case(rng, "valid", big=True))
     return cases
 
